@@ -49,6 +49,9 @@ type c10Case struct {
 	// the stall lasts for more than a maintenance period before Close is called, so that a timer tick is already
 	// waiting for the policy lock when the cache is closed
 	LongStall bool `json:"stalled_for_more_than_a_tick_before_close,omitempty"`
+	// Viewers: goroutines cycling through Range / Len / EstimatedSize / Stats / SaveCache (the calls that take the
+	// policy lock, all shard locks, or both) while Close lands
+	Viewers int `json:"viewers_range_len_size_stats_save,omitempty"`
 }
 
 func maxGoroutineID() int64 {
@@ -101,7 +104,7 @@ func c10Scenario(r *Run, idx int, cs c10Case) {
 		}
 	}
 	// ---- clients
-	var ops, wops atomic.Int64
+	var ops, wops, vops atomic.Int64
 	var closeCalled atomic.Bool
 	var wg sync.WaitGroup
 	stopClients := make(chan struct{})
@@ -154,6 +157,35 @@ func c10Scenario(r *Run, idx int, cs c10Case) {
 				ops.Add(1)
 			}
 		}(rd)
+	}
+	for v := 0; v < cs.Viewers; v++ {
+		wg.Add(1)
+		go func(v int) {
+			defer wg.Done()
+			for i := v; ; i++ {
+				select {
+				case <-stopClients:
+					return
+				default:
+				}
+				switch x := i % 5; {
+				case a.hybrid(): // the hybrid kinds expose none of the views: SaveCache only
+					_ = a.save(0, io.Discard)
+				case x == 0:
+					a.rangeAll(func(int, int64) bool { return true })
+				case x == 1:
+					_ = a.length()
+				case x == 2:
+					_ = st.EstimatedSize()
+				case x == 3:
+					_ = st.Stats()
+				default:
+					_ = a.save(0, io.Discard)
+				}
+				ops.Add(1)
+				vops.Add(1)
+			}
+		}(v)
 	}
 	if cs.WaitToo {
 		wg.Add(1)
@@ -226,6 +258,7 @@ func c10Scenario(r *Run, idx int, cs c10Case) {
 	allDone := make(chan struct{})
 	go func() { wg.Wait(); <-waitAfterDone; close(allDone) }()
 	terminated := false
+	lockStreak, lockDeadlock := 0, false
 	for evals := 0; evals < 100 && !terminated; evals++ {
 		select {
 		case <-allDone:
@@ -237,6 +270,39 @@ func c10Scenario(r *Run, idx int, cs c10Case) {
 		if dumpBlind.Load() {
 			r.Broken("C10: goroutine dumps cannot be parsed; hang verdicts are void")
 			return
+		}
+		// clients parked on a lock inside the cache while nothing of the cache can move any more: every goroutine
+		// with a frame of the cache is parked, unchanged, in both dumps (a goroutine that sleeps, runs or waits
+		// for the network is alive and may yet release the lock); seen in three successive pairs of dumps
+		{
+			alive := 0
+			lockStuck := map[string]int{}
+			for id, g := range all {
+				if id <= hiWater || !strings.Contains(g.Text, theineFrame) {
+					continue
+				}
+				sg, stable := gs[id]
+				onLock := strings.HasPrefix(g.State, "sync.") || g.State == "semacquire"
+				if !stable || !(onLock || sg.State == "chan send" || sg.State == "chan receive" || sg.State == "select") {
+					alive++
+					continue
+				}
+				if onLock && strings.Contains(g.Text, "main.c10Scenario") {
+					lockStuck[strings.TrimPrefix(g.topTheineFrame(), ").")+" ["+g.State+"]"]++
+				}
+			}
+			if alive == 0 && len(lockStuck) > 0 {
+				lockStreak++
+			} else {
+				lockStreak = 0
+			}
+			if lockStreak >= 3 {
+				for where, n := range lockStuck {
+					fail("call-never-returns/"+strings.Fields(where)[0]+"/parked-on-a-lock-nobody-will-release", fmt.Sprintf("%d client goroutine(s) parked on a lock inside the cache at %s, and every goroutine with a frame of the cache is parked, unchanged, in three successive pairs of dumps (nobody is left who could release it)", n, where))
+				}
+				lockDeadlock = true
+				break
+			}
 		}
 		ms := "absent"
 		for _, g := range all { // from the whole second dump: a maintenance goroutine that is busy is still there
@@ -282,6 +348,7 @@ func c10Scenario(r *Run, idx int, cs c10Case) {
 			break
 		}
 	}
+	_ = lockDeadlock
 	if !closeReturned {
 		select {
 		case <-closeDone:
@@ -291,6 +358,10 @@ func c10Scenario(r *Run, idx int, cs c10Case) {
 		}
 	}
 	r.Count("client_ops_completed", ops.Load())
+	if cs.Viewers > 0 {
+		r.Count("scenarios_with_range_len_size_stats_save_in_flight_at_close", 1)
+		r.Count("viewer_calls_completed", vops.Load())
+	}
 
 	// ---- finality (fresh probes after Close returned)
 	if closeReturned {
@@ -418,7 +489,7 @@ func c10Scenario(r *Run, idx int, cs c10Case) {
 		}
 		return ">32"
 	}
-	r.Distinct(fmt.Sprintf("%s/w%s/r%s/stall=%v/wait=%v/del=%v", cs.Kind, bucket(cs.Writers), bucket(cs.Readers), cs.Stall, cs.WaitToo, cs.DelHeavy))
+	r.Distinct(fmt.Sprintf("%s/w%s/r%s/stall=%v/wait=%v/del=%v/viewers=%v", cs.Kind, bucket(cs.Writers), bucket(cs.Readers), cs.Stall, cs.WaitToo, cs.DelHeavy, cs.Viewers > 0))
 	r.Sample(8, map[string]any{"case": cs, "ops_completed": ops.Load(), "close_returned": closeReturned, "all_calls_returned": terminated})
 }
 
@@ -596,7 +667,7 @@ func runC10(r *Run) {
 	for _, kind := range anyKinds {
 		for _, w := range []int{1, 4, 32, 256} {
 			for _, stall := range []bool{false, true} {
-				cases = append(cases, c10Case{Kind: kind, Writers: w, Readers: []int{0, 2, 16}[rng.Intn(3)], Stall: stall, CloseAt: 200 + rng.Intn(20000), WaitToo: rng.Intn(3) == 0})
+				cases = append(cases, c10Case{Kind: kind, Writers: w, Readers: []int{0, 2, 16}[rng.Intn(3)], Stall: stall, CloseAt: 200 + rng.Intn(20000), WaitToo: rng.Intn(3) == 0, Viewers: []int{0, 1, 3}[(w+len(cases))%3]})
 				if w >= 32 {
 					cases = append(cases, c10Case{Kind: kind, Writers: w, Readers: 0, Stall: stall, CloseAt: 200 + rng.Intn(20000), DelHeavy: true})
 				}
@@ -629,6 +700,7 @@ func runC10(r *Run) {
 				cs.CloseAt = 100 + rng.Intn(40000)
 				cs.Readers = []int{0, 1, 8, 64}[rng.Intn(4)]
 				cs.WaitToo = rng.Intn(2) == 0
+				cs.Viewers = []int{0, 0, 1, 4}[rng.Intn(4)]
 			}
 			if cs.Writers == 0 && cs.Readers == 0 {
 				cs.Readers = 8 // a scenario needs clients: with none, "close after CloseAt operations" never comes
